@@ -138,7 +138,7 @@ static int print_i(void (*printchar_handler)(void *d, int c),
 
     len = (int)(end - str);
     zero_count =
-        (len < min_len                                               ? min_len
+        (len < min_len ? min_len + (base == 8 ? 0 : prefix_len)
          : (ops & OPS_FLAG_ZERO_PAD) &&
                  !(ops & (OPS_FLAG_LEFT_ALIGN | OPS_PREC_IS_GIVEN))
              ? width
@@ -589,8 +589,8 @@ int __printf(void (*printchar_handler)(void *d, int c),
                           (size_t)tmp.vp,
                           0,
                           width,
-                          sizeof tmp.vp * 2 + 2,
-                          ops | (OPS_FLAG_WITH_SPEC | OPS_FLAG_ZERO_PAD),
+                          sizeof tmp.vp * 2,
+                          ops | (OPS_FLAG_WITH_SPEC | OPS_PREC_IS_GIVEN),
                           16);
             break;
         case 'n':
